@@ -35,8 +35,41 @@ def d16_directed(ctx):
     ctx.count(case)
 
 
+def race_family(rng, n):
+    """signals racing with normal completion: a task is cancelled (or its scope fails / is interrupted) in the very
+    time step in which it completes, before or after its own wake-up; repeated and late cancels"""
+    out = []
+    for _ in range(n):
+        k = rng.choice([1, 2, 2, 3])
+        body = []
+        for t in range(1, k + 1):
+            d = rng.choice([1, 1, 2])
+            tb = [['await', ['delay', d]], ['log', 10 + t]]
+            if rng.random() < 0.3:
+                tb += [['await', ['instant']], ['log', 20 + t]]
+            if rng.random() < 0.15:
+                tb += [['raise', rng.choice([0, 2])]]
+            body.append(['do', 1, t, rng.choice([['now'], ['now'], ['after', 1]]), rng.random() < 0.2, tb])
+        for _ in range(rng.choice([1, 2, 3])):
+            body.append(['await', rng.choice([['delay', 1], ['delay', 1], ['delay', 2], ['instant'], ['delay', 0]])])
+            for _ in range(rng.choice([1, 1, 2])):
+                body.append(['cancel', rng.randrange(1, k + 1), rng.randrange(1, 9)])
+        if rng.random() < 0.4:
+            body.append(['try', [['await_task', rng.randrange(1, k + 1)]], [[['exception'], [['log', 40]]]], []])
+        block = ['scope', 1, body] if rng.random() < 0.6 else ['until', 1, ['delay', rng.choice([1, 2, 2, 3])], body]
+        roots = [[block, ['log', 50]]]
+        if rng.random() < 0.5:
+            roots.append([['await', ['delay', rng.choice([1, 2])]], ['cancel', rng.randrange(1, k + 1), 9], ['log', 60],
+                          ['await', ['delay', 1]], ['cancel', rng.randrange(1, k + 1), 8]])
+        if rng.random() < 0.3:
+            rng.shuffle(roots)
+        out.append(('races', dict(start=0, till=rng.choice([None, None, None, 2, 3]), roots=roots, nflags=1, tracked=[0],
+                                  nlocks=1, nqueues=1, nchans=1)))
+    return out
+
+
 def run(ctx):
-    machine_prop.run(ctx, FAMILIES, MONITORS)
+    machine_prop.run(ctx, FAMILIES, MONITORS, extra_scenarios=race_family(ctx.rng, ctx.n(120, 3000)))
     d16_directed(ctx)
 
 
